@@ -749,7 +749,10 @@ func (ro *RedisOutput) rdbReplayBisync(ctx context.Context, runID string, fullSy
 			}
 
 			filterOut := false
-			if ro.outFilter.FilterDb(int(e.DB)) {
+			if e.ObjectParser != nil && !bisyncRdbEntryHasKey(e) {
+				// a function library or an aux field names no key and lives in no database : the
+				// key, slot and database rules do not apply to it
+			} else if ro.outFilter.FilterDb(int(e.DB)) {
 				filterOut = true
 			} else {
 				// Keep the selected DB in sync with the incoming RDB stream before
